@@ -432,7 +432,17 @@ class IKRun:
             elif op == "restoreEE":
                 arm.restoreOriginalEE()
             elif op == "limits":
-                arm.setJointProperties(np.array(st["mins"], float), np.array(st["maxs"], float))
+                how = st.get("how", "setter")
+                if how == "setter":
+                    arm.setJointProperties(np.array(st["mins"], float), np.array(st["maxs"], float))
+                elif how == "assign":
+                    # "Joint constraints are set through the joint_maxs and joint_mins properties" (constrainedIK docstring)
+                    arm.joint_mins = np.array(st["mins"], float)
+                    arm.joint_maxs = np.array(st["maxs"], float)
+                else:
+                    arm.joint_mins[:] = np.array(st["mins"], float)      # edited in place: same array objects
+                    arm.joint_maxs[:] = np.array(st["maxs"], float)
+                self.probes["limits_changed_" + how] += 1
             elif op == "tol":
                 arm.pos_tolerance = float(st["pos"])
                 arm.rot_tolerance = float(st["rot"])
@@ -1048,7 +1058,8 @@ def gen_trace(seed):
                 shift = np.array([0.0 if (has_prismatic and spec["prismatic"][j_]) else ro.uniform(-1.5, 1.5) for j_ in range(n)])
                 mins = mins + shift
                 maxs = maxs + shift
-            steps.append({"op": "limits", "mins": [float(x) for x in mins], "maxs": [float(x) for x in maxs]})
+            steps.append({"op": "limits", "mins": [float(x) for x in mins], "maxs": [float(x) for x in maxs],
+                          "how": ro.choice(["setter", "setter", "assign", "inplace"])})
         elif k == "tol":
             t2 = tol_step()
             if t2:
@@ -1094,7 +1105,8 @@ EXPECTED_PROBES = ["success_first_attempt", "success_on_restart", "success_on_re
                    "tol_pos_gt_rot", "tol_rot_gt_pos", "goal_on_limit_boundary", "goal_beyond_reach",
                    "unreachable_goal_reported_failure", "solve_after_move_or_retool", "start_from_current_state",
                    "local_clause_applicable", "move_stationary_internal_ik", "goal_is_current_reported_pose",
-                   "goal_is_stale_reported_pose", "arm_with_prismatic_joint", "returned_vector_edited_by_caller", "goal_object_moved_by_caller"]
+                   "goal_is_stale_reported_pose", "arm_with_prismatic_joint", "returned_vector_edited_by_caller", "goal_object_moved_by_caller",
+                   "limits_changed_assign", "limits_changed_inplace"]
 
 
 def warmup():
